@@ -644,6 +644,14 @@ func (r *Report) guardSite(rule string, u *Unit, s *flow.Site, goal *flow.F, psi
 		construct += " (at block entry)"
 	}
 	res := flow.Implies(pc, goal)
+	// a contradictory path condition makes every guard hold vacuously: that is a limit of the condition tracking (the
+	// same observer called before and after a change), not a proof
+	if res.Holds && res.Undecided == "" {
+		if f := flow.Implies(pc, flow.False()); f.Holds && f.Undecided == "" {
+			r.Unknown(rule, construct, u.Pos(s.Pos), "the path condition of the site is contradictory ("+clip(pc.String(), 300)+"): the site looks unreachable to the analysis, the guard cannot be decided")
+			return false
+		}
+	}
 	switch {
 	case res.Undecided != "":
 		r.Unknown(rule, construct, u.Pos(s.Pos), res.Undecided+" (pc: "+pc.String()+")")
